@@ -38,7 +38,19 @@ def exhaustive_literals():
 
 def rand_pair(rnd):
     """(a, b) decimal pairs (mantissa, scale) chosen to stress exactness"""
-    k = gen.wchoice(rnd, [("rand", 4), ("eqscale", 2), ("ulp", 3), ("bigsmall", 2), ("carry", 2), ("small", 2), ("samedigits", 2), ("scalesum", 2.5)])
+    k = gen.wchoice(rnd, [("rand", 4), ("eqscale", 2), ("ulp", 3), ("bigsmall", 2), ("carry", 2), ("small", 2), ("samedigits", 2), ("scalesum", 2.5), ("farscales", 3)])
+    if k == "farscales":
+        # operands whose scales are far apart: a wide dividend and a divisor with 20-28 decimals (and the reverse)
+        sb = rnd.randint(18, 28)
+        mb = rnd.choice([10 ** sb + 1, 10 ** sb + rnd.randint(1, 10 ** 6), rnd.randint(1, 9) * 10 ** sb + rnd.randint(0, 10 ** 9), rnd.randint(1, 10 ** min(sb + 1, 28))])
+        mb = min(mb, MAXD)
+        ma = rnd.choice([1 << 32, (1 << 32) - 1, 1 << 63, (1 << 63) - 1, 1 << 64, MAXD, rnd.randint(1, 1 << 40), rnd.randint(1 << 40, MAXD), 10 ** rnd.randint(9, 28)])
+        sa = rnd.choice([0, 0, 0, 1, 2])
+        if rnd.random() < 0.3:
+            ma = -ma
+        if rnd.random() < 0.2:
+            mb = -mb
+        return ((ma, sa), (mb, sb)) if rnd.random() < 0.8 else ((mb, sb), (ma, sa))
     if k == "samedigits":
         # the same digit string at different scales (values differ by a power of ten)
         nd = rnd.randint(20, 28)
